@@ -820,12 +820,11 @@ func checkFPGuard(r *Run, rc *RuleCtx, mi *mutInfo) {
 
 // fullRangeLoopAllowingReturnExit: like fullRangeLoop but exits that lead straight to a return are allowed.
 func fullRangeLoopAllowingReturnExit(lp *Loop, S ssa.Value, ia *ssa.IndexAddr, fn *ssa.Function) bool {
-	if !rangeIndexLoop(lp) {
+	idx, start, bound, isIdx := indexLoopInfo(lp)
+	if !isIdx || start != 0 {
 		return false
 	}
-	iff := lp.Header.Instrs[len(lp.Header.Instrs)-1].(*ssa.If)
-	cmp := iff.Cond.(*ssa.BinOp)
-	ln, ok := cmp.Y.(*ssa.Call)
+	ln, ok := bound.(*ssa.Call)
 	if !ok || !isBuiltinCall(ln, "len") {
 		return false
 	}
@@ -834,15 +833,7 @@ func fullRangeLoopAllowingReturnExit(lp *Loop, S ssa.Value, ia *ssa.IndexAddr, f
 	if k.Key(ln.Call.Args[0]) != k.Key(S) {
 		return false
 	}
-	inc := cmp.X.(*ssa.BinOp)
-	ph := inc.X.(*ssa.Phi)
-	hasM1 := false
-	for _, e := range ph.Edges {
-		if c, ok := constInt(e); ok && c == -1 {
-			hasM1 = true
-		}
-	}
-	if !hasM1 || ia.Index != ssa.Value(inc) {
+	if ia.Index != idx {
 		return false
 	}
 	for _, ex := range lp.Exits() {
